@@ -184,8 +184,9 @@ def handlePure : List String → Option String
       | none => "none"
     pure s!"{showEntry e} {flags} {lfn}"
   | ["lfn", size, frags] => do
-    let fs ← (if frags = "-" then some [] else (frags.splitOn ";").mapM parseFrag)
-    let r := fs.foldl (fun (acc : Res Lfn.Buf) fr => acc.bind fun b => Lfn.push b fr) (.ok (Lfn.new (zeros (← size.toNat?))))
+    -- items: a fragment (52 hex digits) = push, "C" = clear
+    let fs ← (if frags = "-" then some [] else (frags.splitOn ";").mapM fun t => if t = "C" then some none else (parseFrag t).map some)
+    let r := fs.foldl (fun (acc : Res Lfn.Buf) fr => acc.bind fun b => match fr with | some f => Lfn.push b f | none => .ok (Lfn.clear b)) (.ok (Lfn.new (zeros (← size.toNat?))))
     match r with
     | .ok b => pure s!"ok {hexOrDash (Lfn.asStr b)} {b.free} {b.overflow} {showOptNat b.unpaired}"
     | _ => pure "panic"
